@@ -286,6 +286,46 @@ Arguments resample {R} rO rI radd rmul n m wn wm ninv minv x j.
 Arguments re {R} radd rmul conj rhalf z.
 Arguments resample_re {R} rO rI radd rmul conj rhalf n m wn wm ninv minv x j.
 
+(* fourier_resample over several axes of an N-D array.  fftn / fftshift / centred crop-pad /
+   ifftshift / ifftn all act axis by axis, so the N-D operator is the one-axis pipeline
+   [resample] applied along each selected axis in turn (the complex result of one axis feeds
+   the next; `.real` is taken once at the very end; the scale N_out/N_in is the product of the
+   per-axis scales m/n).  tw N is the root-of-unity family of size N, inv N = 1/N. *)
+Section ResampleND.
+  Variable R : Type.
+  Variables (rO rI : R) (radd rmul : R -> R -> R).
+  Variable tw : nat -> Z -> R.
+  Variable inv : nat -> R.
+
+  (* the 1-D line (o, :, k) of the (outer, n, inner) view *)
+  Definition line (n inner o k : nat) (x : list R) : nat -> R :=
+    fun i => nth ((o * n + i) * inner + k) x rO.
+
+  Definition resample_line (n m : nat) (x : nat -> R) : list R :=
+    map (resample rO rI radd rmul n m (tw n) (tw m) (inv n) (inv m) x) (seq 0 m).
+
+  Definition resample_axis (outer n inner m : nat) (x : list R) : list R :=
+    flat_map (fun o =>
+                let cols := map (fun k => resample_line n m (line n inner o k x)) (seq 0 inner) in
+                flat_map (fun j => map (fun col => nth j col rO) cols) (seq 0 m))
+             (seq 0 outer).
+
+  Definition resample_at (a m : nat) (t : tensor R) : tensor R :=
+    let sh := shape t in
+    mkT (set_nth a m sh) (resample_axis (outer_of a sh) (len_of a sh) (inner_of a sh) m (data t)).
+
+  Definition resample_nd (ams : list (nat * nat)) (t : tensor R) : tensor R :=
+    fold_left (fun acc am => resample_at (fst am) (snd am) acc) ams t.
+End ResampleND.
+Arguments line {R} rO n inner o k x _.
+Arguments resample_line {R} rO rI radd rmul tw inv n m x.
+Arguments resample_axis {R} rO rI radd rmul tw inv outer n inner m x.
+Arguments resample_at {R} rO rI radd rmul tw inv a m t.
+Arguments resample_nd {R} rO rI radd rmul tw inv ams t.
+
+Definition resample_meta (ams : list (nat * (nat * nat))) (mt : meta) : meta :=
+  fold_left (fun acc anm => resample_meta_at (fst anm) (fst (snd anm)) (snd (snd anm)) acc) ams mt.
+
 (* which source bin (unshifted FFT index, size n) is copied to destination bin k (size m);
    None = zero fill.  This is [respectrum] itself, run on symbolic bins. *)
 Definition src_bin (n m k : nat) : option nat :=
